@@ -70,6 +70,7 @@ func runC02(c *Ctx) {
 	ruleNoLoopVarCapture(c, "C02.31", "storage", "engine")
 	ruleLSNMonotone(c, "C02.32")
 	ruleLogWritesReachFile(c, "C02.33")
+	ruleRecordOwnsPayload(c, "C02.34")
 	ruleErrorsNotDropped(c, "C02.16", "storage.(*BTree).insert", "storage.(*RelationService).Insert", "storage.(*RelationService).MarkDeleted", "storage.(*RelationService).FlushWALBatch")
 }
 
